@@ -46,15 +46,15 @@ var verifDir = func() string {
 }()
 
 type tierCfg struct {
-	QuickRuns    int // total runs over all workers
-	ThoroughRuns int
-	Workers      int
-	Enum         bool // the check has an enumerated part
-	EnumQuickStride int // quick tier: every n-th index (thorough: every index)
-	Race         bool // additionally build and run a -race worker
-	RaceQuick    int
-	RaceThorough int
-	PerRunTimeout time.Duration
+	QuickRuns       int // total runs over all workers
+	ThoroughRuns    int
+	Workers         int
+	Enum            bool // the check has an enumerated part
+	EnumQuickStride int  // quick tier: every n-th index (thorough: every index)
+	Race            bool // additionally build and run a -race worker
+	RaceQuick       int
+	RaceThorough    int
+	PerRunTimeout   time.Duration
 }
 
 var tiers = map[string]tierCfg{
@@ -79,29 +79,31 @@ func cfgFor(id string) tierCfg {
 }
 
 type WorkerStats struct {
-	Check      string         `json:"check"`
-	Rule       string         `json:"rule"`
-	Level      string         `json:"level"`
-	Engine     string         `json:"engine"`
-	Runs       int            `json:"runs"`
-	Nontrivial int            `json:"nontrivial"`
-	SchedList  []string       `json:"scheds"`
-	Steps      int            `json:"steps"`
-	SimTimeMS  int64          `json:"sim_time_ms"`
-	Faults     map[string]int `json:"faults"`
-	Probes     map[string]int `json:"probes"`
-	Samples    []string       `json:"samples"`
-	Known      map[string]int `json:"known"`
-	Failed     bool           `json:"failed"`
-	Failure    *FailureRec    `json:"failure,omitempty"`
-	WallS      float64        `json:"wall_s"`
-	Digests    []string       `json:"digests,omitempty"`
-	Stuck      int            `json:"stuck"`
-	Bytes      int            `json:"bytes_delivered"`
-	EnumCount  int            `json:"enum_count"`
-	EnumParams map[string]int `json:"enum_params,omitempty"`
-	EnumRan    int            `json:"enum_ran"`
-	EnumRule   string         `json:"enum_rule,omitempty"`
+	Check        string         `json:"check"`
+	Rule         string         `json:"rule"`
+	Level        string         `json:"level"`
+	Engine       string         `json:"engine"`
+	Runs         int            `json:"runs"`
+	Nontrivial   int            `json:"nontrivial"`
+	SchedList    []string       `json:"scheds"`
+	Steps        int            `json:"steps"`
+	SimTimeMS    int64          `json:"sim_time_ms"`
+	Faults       map[string]int `json:"faults"`
+	Probes       map[string]int `json:"probes"`
+	Samples      []string       `json:"samples"`
+	Known        map[string]int `json:"known"`
+	Failed       bool           `json:"failed"`
+	Failure      *FailureRec    `json:"failure,omitempty"`
+	WallS        float64        `json:"wall_s"`
+	Digests      []string       `json:"digests,omitempty"`
+	Stuck        int            `json:"stuck"`
+	Bytes        int            `json:"bytes_delivered"`
+	EnumCount    int            `json:"enum_count"`
+	EnumParams   map[string]int `json:"enum_params,omitempty"`
+	EnumRan      int            `json:"enum_ran"`
+	EnumRule     string         `json:"enum_rule,omitempty"`
+	FailIter     int            `json:"fail_iter"`
+	FirstFailure *FailureRec    `json:"first_failure,omitempty"`
 }
 
 type FailureRec struct {
@@ -129,6 +131,7 @@ type Replay struct {
 	IsEnum    bool        `json:"is_enum"`
 	RapidIter int         `json:"rapid_iter"` // process-death replays: iteration that killed the worker
 	Death     string      `json:"death_output,omitempty"`
+	Sequence  bool        `json:"sequence"` // replay = the same rapid seed run for rapid_iter+1 iterations
 	Failure   *FailureRec `json:"failure"`
 	Note      string      `json:"note"`
 }
@@ -529,6 +532,29 @@ func cmdCheck(id string, tier string, seed int64, keep bool) int {
 		}
 		rr := runWorker(wbin, id, 900+r.idx, 1, 1, filepath.Join(scratch, fmt.Sprintf("confirm%d", r.idx)), nil, []string{"-rapid.failfile=" + ff, "-rapid.nofailfile"}, 10*time.Minute)
 		if rr.stats == nil || !rr.stats.Failed || rr.stats.Failure == nil || rr.stats.Failure.Class != f.Class {
+			// The minimised case alone does not fail in a fresh process.  It may depend on
+			// state the system under test carries from one run to the next inside a process
+			// (a process-global pool, cache, counter): replay the whole sequence of runs.
+			if !r.race && !r.enum {
+				sr := runWorker(wbin, id, 940+r.idx, r.rapidSeed, r.stats.FailIter+1, filepath.Join(scratch, fmt.Sprintf("seq%d", r.idx)), nil, []string{"-rapid.shrinktime=1ms", "-rapid.nofailfile"}, 30*time.Minute)
+				ff1 := r.stats.FirstFailure
+				if ff1 == nil {
+					ff1 = f
+				}
+				if sr.stats != nil && sr.stats.Failed && sr.stats.FirstFailure != nil && sr.stats.FailIter == r.stats.FailIter && sr.stats.FirstFailure.Class == ff1.Class {
+					rp := Replay{Property: id, Seed: seed, RapidSeed: r.rapidSeed, Worker: r.idx, Sequence: true, RapidIter: r.stats.FailIter, Failure: sr.stats.FirstFailure,
+						Note: "the violating run fails only after the runs that precede it in the same process: the system under test carries state from one connection/world to the next (process-global pool or cache). replay: verif replay <this file> re-runs rapid seed rapid_seed for rapid_iter+1 iterations"}
+					dir := filepath.Join(verifDir, "replays", id)
+					os.MkdirAll(dir, 0o755)
+					path := filepath.Join(dir, fmt.Sprintf("%s-seed%d-w%d-seq-%s.json", id, seed, r.idx, sanitize(ff1.Class)))
+					b, _ := json.MarshalIndent(rp, "", " ")
+					os.WriteFile(path, b, 0o644)
+					fmt.Printf("VIOLATION property=%s replay=%s\n  class=%s (depends on state carried across runs) %s\n", id, path, ff1.Class, sr.stats.FirstFailure.Msg)
+					violations++
+					exit = 1
+					continue
+				}
+			}
 			got := "no failure"
 			if rr.stats != nil && rr.stats.Failure != nil {
 				got = rr.stats.Failure.Class + ": " + rr.stats.Failure.Msg
@@ -644,6 +670,15 @@ func cmdReplay(path string) int {
 	}
 	scratch, bin, raceBin := prepare(rp.Property+"-replay", rp.Race)
 	defer os.RemoveAll(scratch)
+	if rp.Sequence {
+		r := runWorker(bin, rp.Property, 0, rp.RapidSeed, rp.RapidIter+1, filepath.Join(scratch, "w0"), nil, []string{"-rapid.shrinktime=1ms", "-rapid.nofailfile"}, 30*time.Minute)
+		if r.stats != nil && r.stats.Failed && r.stats.FirstFailure != nil {
+			fmt.Printf("VIOLATION property=%s replay=%s\n  class=%s %s\n", rp.Property, path, r.stats.FirstFailure.Class, r.stats.FirstFailure.Msg)
+			return 1
+		}
+		fmt.Printf("replay of %s: no violation on the current tree\n", path)
+		return 0
+	}
 	if rp.IsEnum || rp.Death != "" {
 		var env, args []string
 		checks := 1
